@@ -157,7 +157,8 @@ class Count(Factory, Container):
                 assert len(t.shape) == 1
                 if shape[0] is not None:
                     assert t.shape[0] == shape[0]
-                self.entries += float(t.sum())
+                # like fill, only rows with a positive weight contribute their transformed weight
+                self.entries += float(t[weights > 0.0].sum())
 
         elif shape[0] is not None:
             if self.transform == identity:
